@@ -778,10 +778,13 @@ func concat(a ...MalType) (MalType, error) {
 	if len(a) == 0 {
 		return List{}, nil
 	}
-	slc1, e := GetSlice(a[0])
+	slc0, e := GetSlice(a[0])
 	if e != nil {
 		return nil, e
 	}
+	// copy: appending to the first argument's own slice would write into spare capacity that
+	// other values share
+	slc1 := append([]MalType{}, slc0...)
 	for i := 1; i < len(a); i += 1 {
 		slc2, e := GetSlice(a[i])
 		if e != nil {
